@@ -140,6 +140,10 @@ pub enum Error {
     #[diagnostic(code(tx3::duplicate_definition))]
     DuplicateDefinition(String),
 
+    #[error("circular definition: {0}")]
+    #[diagnostic(code(tx3::circular_definition))]
+    CircularDefinition(String),
+
     #[error(transparent)]
     #[diagnostic(transparent)]
     NotInScope(#[from] NotInScopeError),
@@ -1402,7 +1406,132 @@ impl Analyzable for ParameterList {
     }
 }
 
+// names a data expression mentions, whatever they resolve to
+fn mentioned_names(expr: &DataExpr, out: &mut Vec<String>) {
+    match expr {
+        DataExpr::Identifier(x) => out.push(x.value.clone()),
+        DataExpr::StructConstructor(x) => {
+            for field in x.case.fields.iter() {
+                mentioned_names(&field.value, out);
+            }
+
+            if let Some(spread) = &x.case.spread {
+                mentioned_names(spread, out);
+            }
+        }
+        DataExpr::ListConstructor(x) => x.elements.iter().for_each(|e| mentioned_names(e, out)),
+        DataExpr::MapConstructor(x) => {
+            for field in x.fields.iter() {
+                mentioned_names(&field.key, out);
+                mentioned_names(&field.value, out);
+            }
+        }
+        DataExpr::AnyAssetConstructor(x) => {
+            mentioned_names(&x.policy, out);
+            mentioned_names(&x.asset_name, out);
+            mentioned_names(&x.amount, out);
+        }
+        DataExpr::SlotToTime(x) | DataExpr::TimeToSlot(x) => mentioned_names(x, out),
+        DataExpr::AddOp(x) => {
+            mentioned_names(&x.lhs, out);
+            mentioned_names(&x.rhs, out);
+        }
+        DataExpr::SubOp(x) => {
+            mentioned_names(&x.lhs, out);
+            mentioned_names(&x.rhs, out);
+        }
+        DataExpr::ConcatOp(x) => {
+            mentioned_names(&x.lhs, out);
+            mentioned_names(&x.rhs, out);
+        }
+        DataExpr::NegateOp(x) => mentioned_names(&x.operand, out),
+        DataExpr::PropertyOp(x) => {
+            mentioned_names(&x.operand, out);
+
+            // a property name is a field of the operand, an index is an expression of its own
+            if !matches!(x.property.as_ref(), DataExpr::Identifier(_)) {
+                mentioned_names(&x.property, out);
+            }
+        }
+        DataExpr::FnCall(x) => x.args.iter().for_each(|e| mentioned_names(e, out)),
+        _ => (),
+    }
+}
+
+// names of the types a type is made of
+fn mentioned_type_names(ty: &Type, out: &mut Vec<String>) {
+    match ty {
+        Type::Custom(x) => out.push(x.value.clone()),
+        Type::List(x) => mentioned_type_names(x, out),
+        Type::Map(key, value) => {
+            mentioned_type_names(key, out);
+            mentioned_type_names(value, out);
+        }
+        _ => (),
+    }
+}
+
+// the definitions that, following what each one mentions, lead back to themselves
+fn circular_definitions(mentions: &[(String, Vec<String>)]) -> Vec<String> {
+    let leads_back = |start: &String| {
+        let mut seen = std::collections::HashSet::new();
+        let mut pending = vec![start];
+
+        while let Some(name) = pending.pop() {
+            for (_, mentioned) in mentions.iter().filter(|(n, _)| n == name) {
+                for next in mentioned.iter() {
+                    if next == start {
+                        return true;
+                    }
+
+                    if seen.insert(next) {
+                        pending.push(next);
+                    }
+                }
+            }
+        }
+
+        false
+    };
+
+    mentions
+        .iter()
+        .map(|(name, _)| name)
+        .filter(|name| leads_back(name))
+        .cloned()
+        .collect()
+}
+
 impl TxDef {
+    // locals and inputs that refer to themselves, directly or through each other
+    fn circular_definitions(&self) -> Vec<String> {
+        let mut mentions = vec![];
+
+        for assign in self.locals.iter().flat_map(|x| x.assigns.iter()) {
+            let mut mentioned = vec![];
+            mentioned_names(&assign.value, &mut mentioned);
+            mentions.push((assign.name.value.clone(), mentioned));
+        }
+
+        for input in self.inputs.iter() {
+            let mut mentioned = vec![];
+
+            for field in input.fields.iter() {
+                match field {
+                    InputBlockField::From(x)
+                    | InputBlockField::MinAmount(x)
+                    | InputBlockField::Redeemer(x)
+                    | InputBlockField::Ref(x) => mentioned_names(x, &mut mentioned),
+                    InputBlockField::DatumIs(_) => (),
+                }
+            }
+
+            mentions.push((input.name.clone(), mentioned));
+        }
+
+        circular_definitions(&mentions)
+    }
+
     // best effort to analyze artifacts that might be circularly dependent on each other
     fn best_effort_analyze_circular_dependencies(&mut self, mut scope: Scope) -> Scope {
         if let Some(locals) = &self.locals {
@@ -1449,9 +1578,20 @@ impl Analyzable for TxDef {
             + self.inputs.len()
             + self.outputs.len();
 
-        for _ in 0..links.max(9) {
+        // a definition that refers to itself can't be resolved, and every pass spent trying
+        // multiplies the size of what the previous one embedded
+        let circular = self.circular_definitions();
+        let passes = if circular.is_empty() { links.max(9) } else { 1 };
+
+        for _ in 0..passes {
             scope = self.best_effort_analyze_circular_dependencies(scope);
         }
+
+        let circular = circular
+            .into_iter()
+            .map(Error::CircularDefinition)
+            .map(AnalyzeReport::from)
+            .fold(AnalyzeReport::default(), |acc, x| acc + x);
 
         let final_scope = Rc::new(scope);
 
@@ -1488,6 +1628,7 @@ impl Analyzable for TxDef {
 
         params
             + duplicate_inputs
+            + circular
             + locals
             + inputs
             + outputs
@@ -1543,6 +1684,19 @@ fn resolve_types_and_aliases(
     // re-embeds the previous one, which makes useless passes very expensive)
     let max_passes = (types.len() + aliases.len() + 1).min(100);
 
+    // an alias made of itself never resolves, and every pass doubles what the previous one embedded
+    let mentions: Vec<_> = aliases
+        .iter()
+        .map(|alias| {
+            let mut mentioned = vec![];
+            mentioned_type_names(&alias.alias_type, &mut mentioned);
+            (alias.name.value.clone(), mentioned)
+        })
+        .collect();
+
+    let circular = circular_definitions(&mentions);
+    let max_passes = if circular.is_empty() { max_passes } else { 1 };
+
     while pass_count < max_passes && !(types.is_resolved() && aliases.is_resolved()) {
         pass_count += 1;
 
@@ -1560,7 +1714,13 @@ fn resolve_types_and_aliases(
         aliases_report = aliases.analyze(Some(scope_rc.clone()));
     }
 
-    (types_report, aliases_report)
+    let circular = circular
+        .into_iter()
+        .map(Error::CircularDefinition)
+        .map(AnalyzeReport::from)
+        .fold(AnalyzeReport::default(), |acc, x| acc + x);
+
+    (types_report, aliases_report + circular)
 }
 
 impl Analyzable for Program {
